@@ -1082,6 +1082,7 @@ type perr =
 | EAttribute
 | EExpectedEq
 | EUnknown
+| ENotSettable
 | ECodec
 
 type 'a res =
@@ -1288,22 +1289,34 @@ let parse_directive_value types digit_val codec_class relaxed name vtxt =
      | _ -> Err (ETypeError, name))
   | None -> Ok VNone
 
-(** val expand_all :
-    (str * dtype) list -> (n -> n option) -> (str -> n) -> bool -> str -> str
-    -> str list -> bool -> dict -> (bool * dict) res **)
+(** val settable : (str * dtype) list -> str -> bool **)
 
-let rec expand_all types digit_val codec_class relaxed prefix vtxt ds found st =
+let settable types name =
+  match lookup_type name types with
+  | Some d -> (match d with
+               | TNoValue -> false
+               | _ -> true)
+  | None -> false
+
+(** val expand_all :
+    (str * dtype) list -> (n -> n option) -> (str -> n) -> bool -> bool ->
+    str -> str -> str list -> bool -> dict -> (bool * dict) res **)
+
+let rec expand_all types digit_val codec_class strict relaxed prefix vtxt ds found st =
   match ds with
   | [] -> Ok (found, st)
   | d :: r ->
     if starts_with prefix d
-    then (match parse_directive_value types digit_val codec_class relaxed d
-                  vtxt with
-          | Ok v ->
-            expand_all types digit_val codec_class relaxed prefix vtxt r true
-              (set d v st)
-          | Err (e, w) -> Err (e, w))
-    else expand_all types digit_val codec_class relaxed prefix vtxt r found st
+    then if (&&) strict (negb (settable types d))
+         then Err (ENotSettable, d)
+         else (match parse_directive_value types digit_val codec_class
+                       relaxed d vtxt with
+               | Ok v ->
+                 expand_all types digit_val codec_class strict relaxed prefix
+                   vtxt r true (set d v st)
+               | Err (e, w) -> Err (e, w))
+    else expand_all types digit_val codec_class strict relaxed prefix vtxt r
+           found st
 
 (** val is_list_type : (str * dtype) list -> str -> bool **)
 
@@ -1316,9 +1329,9 @@ let is_list_type types name =
 
 (** val parse_item :
     (str * dtype) list -> str list -> (n -> n option) -> (str -> n) -> bool
-    -> bool -> dict -> str -> dict res **)
+    -> bool -> bool -> dict -> str -> dict res **)
 
-let parse_item types defaults digit_val codec_class relaxed ignore_unknown st item0 =
+let parse_item types defaults digit_val codec_class strict relaxed ignore_unknown st item0 =
   let item = strip item0 in
   (match item with
    | [] -> Ok st
@@ -1337,16 +1350,18 @@ let parse_item types defaults digit_val codec_class relaxed ignore_unknown st it
                         Ok (set name (VList (app l (vtxt :: []))) st)
                       | _ -> Err (EAttribute, name))
                    | None -> Ok (set name (VList (vtxt :: [])) st))
-             else (match parse_directive_value types digit_val codec_class
-                           relaxed name vtxt with
-                   | Ok v -> Ok (set name v st)
-                   | Err (e, w) -> Err (e, w))
+             else if (&&) strict (negb (settable types name))
+                  then Err (ENotSettable, name)
+                  else (match parse_directive_value types digit_val
+                                codec_class relaxed name vtxt with
+                        | Ok v -> Ok (set name v st)
+                        | Err (e, w) -> Err (e, w))
         else let r =
                if ends_with ((Npos (XO (XI (XI (XI (XO XH)))))) :: ((Npos (XI
                     (XO (XO (XO (XO (XI XH))))))) :: ((Npos (XO (XO (XI (XI
                     (XO (XI XH))))))) :: ((Npos (XO (XO (XI (XI (XO (XI
                     XH))))))) :: [])))) name
-               then expand_all types digit_val codec_class relaxed
+               then expand_all types digit_val codec_class strict relaxed
                       (drop_last (S (S (S O))) name) vtxt defaults false st
                else Ok (false, st)
              in
@@ -1361,25 +1376,25 @@ let parse_item types defaults digit_val codec_class relaxed ignore_unknown st it
 
 (** val parse_items :
     (str * dtype) list -> str list -> (n -> n option) -> (str -> n) -> bool
-    -> bool -> dict -> str list -> dict res **)
+    -> bool -> bool -> dict -> str list -> dict res **)
 
-let rec parse_items types defaults digit_val codec_class relaxed ignore_unknown st = function
+let rec parse_items types defaults digit_val codec_class strict relaxed ignore_unknown st = function
 | [] -> Ok st
 | it :: r ->
-  (match parse_item types defaults digit_val codec_class relaxed
+  (match parse_item types defaults digit_val codec_class strict relaxed
            ignore_unknown st it with
    | Ok st' ->
-     parse_items types defaults digit_val codec_class relaxed ignore_unknown
-       st' r
+     parse_items types defaults digit_val codec_class strict relaxed
+       ignore_unknown st' r
    | Err (e, w) -> Err (e, w))
 
 (** val parse_directive_list :
     (str * dtype) list -> str list -> (n -> n option) -> (str -> n) -> bool
-    -> bool -> dict -> str -> dict res **)
+    -> bool -> bool -> dict -> str -> dict res **)
 
-let parse_directive_list types defaults digit_val codec_class relaxed ignore_unknown cur s =
-  parse_items types defaults digit_val codec_class relaxed ignore_unknown cur
-    (split_on (Npos (XO (XO (XI (XI (XO XH)))))) s)
+let parse_directive_list types defaults digit_val codec_class strict relaxed ignore_unknown cur s =
+  parse_items types defaults digit_val codec_class strict relaxed
+    ignore_unknown cur (split_on (Npos (XO (XO (XI (XI (XO XH)))))) s)
 
 type kind =
 | KFunc
@@ -4813,10 +4828,10 @@ let g_parse_value codec =
   parse_directive_value g_types g_digit (codec_from_table codec)
 
 (** val g_parse_list :
-    (str * n) list -> bool -> bool -> dict -> str -> dict res **)
+    bool -> (str * n) list -> bool -> bool -> dict -> str -> dict res **)
 
-let g_parse_list codec =
-  parse_directive_list g_types g_names g_digit (codec_from_table codec)
+let g_parse_list strict codec =
+  parse_directive_list g_types g_names g_digit (codec_from_table codec) strict
 
 (** val g_scope_ok : str -> str -> bool **)
 
